@@ -221,9 +221,16 @@ func SolveAll(g *Gen, header string, results []*FnResult, outDir string, par int
 // the load of the machine, and a timeout must not be reported as a failed obligation just because sixteen
 // solver processes (or other jobs) were competing for the cores. At most 40 of them are re-run, four at a time,
 // with three times the timeout and all solvers raced. A genuine failure stays a failure; it only takes longer.
+// NoRetry, when set (check: obligations recorded as known findings), names obligations whose time-out is expected: they are
+// not given the second, three times longer chance.
+var NoRetry func(oblName string) bool
+
 func retryTimeouts(out []*SolveResult, timeoutS int) {
 	var idx []int
 	for i, r := range out {
+		if r != nil && r.Status == "timeout" && NoRetry != nil && r.Obl != nil && NoRetry(r.Obl.Name) {
+			continue
+		}
 		if r != nil && r.Status == "timeout" {
 			idx = append(idx, i)
 		}
